@@ -3,7 +3,7 @@ from __future__ import annotations
 
 import ast
 
-from sa.loader import norm, norm1, walk_shallow, own_nodes, call_name
+from sa.loader import recv, norm, norm1, walk_shallow, own_nodes, call_name
 from sa.cfg import handler_types
 from sa.rulekit import (nodes_calling, node_calls, nodes_where, return_nodes, own, is_const,
                         nodes_writing_attr, must_pass, written_value, handlers_in,
@@ -93,7 +93,7 @@ def run(ck):
     w = nodes_writing_attr(g, '_error')[0]
     cancels = nodes_calling(g, 'cancel')
     ok = len(cancels) == 1 and g.dominates(w, cancels[0]) and \
-        norm(node_calls(cancels[0], 'cancel')[0].func.value) == 'self._simtask'
+        recv(node_calls(cancels[0], 'cancel')[0]) == 'self._simtask'
     ck.ob(R1, f"{ab.fid} :: record then cancel", ok,
           "the error is recorded before the simulation task is cancelled" if ok else
           "abort() cancels the task before (or without) recording the error", ab,
@@ -227,7 +227,7 @@ def run(ck):
                         and ge.dominates(h, n)]
         okab = bool(cause) and ge.dominates(cause[0], aborts[0]) and \
             all(r.id in ge.reachable_from(aborts[0]) for r in raises_after) and \
-            norm(node_calls(aborts[0], 'abort')[0].func.value) == 'self.circuit'
+            recv(node_calls(aborts[0], 'abort')[0]) == 'self.circuit'
         # the only guard of the abort inside the handler is the traceback-depth test
         extra = [t for t, p in ge.guard_texts(aborts[0]) - ge.guard_texts(h) if 'tb_next' not in t]
         okab = okab and not extra
